@@ -9,7 +9,7 @@ from pathlib import Path
 
 from harness import common
 from harness.common import Ck, VERIF
-from translate import c15_pixel
+from translate import c15_frame, c15_pixel
 
 MANIFEST = dict(
     technique='Rocq proof (symbolic bit-level evaluation of the translated pixel codecs proved sound, so the round-trip laws hold '
@@ -37,6 +37,7 @@ MANIFEST = dict(
 
 IMPORTS = ['Coq.NArith.NArith', 'Coq.ZArith.ZArith', 'Coq.Lists.List', 'SV.Fmt.VtfPixelExpr', 'SV.Fmt.VtfLayout',
            'SV.Gen.PixelCodecs_gen', 'SV.Gen.VtfLayout_gen']
+IMPORTS_FRAME = ['Coq.Lists.List', 'Coq.Strings.String', 'Coq.Bool.Bool', 'SV.Fmt.VtfFrameSM', 'SV.Gen.VtfFrameSM_gen']
 
 # format (lower case) -> (specification of load-after-save, canonical stored form)
 SPECS = {
@@ -192,6 +193,7 @@ def corr_codecs(ck: Ck, cod: dict) -> None:
     from concurrent.futures import ThreadPoolExecutor
     from srctools.vtf import ImageFormats
     n_rand = ck.budget(250, 2500)
+    full_sweep = ck.budget(0, 1) == 1
     special = [(0, 0, 0, 0), (255, 255, 255, 255), (255, 0, 0, 255), (0, 255, 0, 255), (0, 0, 255, 255), (0, 0, 255, 0),
                (1, 2, 3, 4), (127, 128, 129, 127), (128, 127, 126, 128), (7, 3, 7, 127), (248, 252, 248, 128), (8, 4, 8, 129)]
     jobs: list[tuple[list[str], list[tuple]]] = []
@@ -236,9 +238,16 @@ def corr_codecs(ck: Ck, cod: dict) -> None:
         lit2 = '[' + ';'.join(str(pk(s)) for s in stored_i) + ']'
         exprs.append(f'map (fun v => pack (run (load_e codec_{name}) (unpack {bpp} v))) {lit2}')
         meta.append(('load', name, stored_i, [pk(l) for l in loaded_i]))
-        if bpp <= 2:
+        if bpp == 1 or (bpp == 2 and full_sweep):
             exprs.append(f'fp (map (fun d => pack (run (load_e codec_{name}) d)) all{bpp})')
             meta.append(('fp', name, None, py_fp(pk(l) for l in load_all)))
+        elif bpp == 2:
+            # quick tier: the kernel evaluates a random eighth of the 2^16 stored values (the Python evaluation of the
+            # translated expressions above is still exhaustive); the thorough tier and any broken tie run all of them
+            sub = sorted(ck.rng.sample(range(65536), 8192))
+            lit3 = '[' + ';'.join(str(v) for v in sub) + ']'
+            exprs.append(f'fp (map (fun v => pack (run (load_e codec_{name}) (unpack 2 v))) {lit3})')
+            meta.append(('fp', name, None, py_fp(pk(load_all[v]) for v in sub)))
         jobs.append((exprs, meta))
     ck.obligation('correspondence:translator-ir', not bad_ir,
                   f'{len(cod)} codecs: translated expressions evaluated in Python vs srctools._py_vtf_readwrite on per-channel sweeps, '
@@ -277,7 +286,7 @@ def corr_codecs(ck: Ck, cod: dict) -> None:
     ck.count('coq_codec_evaluations', n_exact)
     ck.obligation('correspondence:coq-codecs', not bad,
                   f'{n_exact} save/load evaluations of Gen/PixelCodecs_gen.v by vm_compute equal the Python codecs exactly; '
-                  f'{n_fp} exhaustive stored-value sweeps (2^8 / 2^16 values) agree by 61-bit fingerprint: {len(bad)} disagreements')
+                  f'{n_fp} stored-value sweeps (all 2^8 values; ' + ('all 2^16' if full_sweep else 'a random 2^13 of the 2^16') + f' values of the 2-byte formats) agree by 61-bit fingerprint: {len(bad)} disagreements')
     if bad:
         ck.tie_broken.append('correspondence generated codecs vs _py_vtf_readwrite')
         ck.extra['codec_disagreement'] = bad[:5]
@@ -707,6 +716,300 @@ def search_filters(ck: Ck) -> None:
                                  {'filter': [w, h, m.value]})
 
 
+
+# ================================================================================================ frame life cycle
+FRAME_OBS = {
+    'frame_init_has_no_pixels_and_no_file_source': 'efftable_eqb gen_eff_init ideal_clear',
+    'frame_load_decodes_the_file_source_once_else_keeps_or_blanks': 'efftable_eqb gen_eff_load ideal_load',
+    'frame_clear_drops_pixels_and_file_source': 'efftable_eqb gen_eff_clear ideal_clear',
+    'frame_fill_replaces_pixels_and_forgets_file_source': 'efftable_eqb gen_eff_fill ideal_new',
+    'frame_copy_from_replaces_pixels_and_forgets_file_source': 'efftable_eqb gen_eff_copy_from ideal_new',
+    'frame_rescale_from_scales_and_keeps_file_source': 'efftable_eqb gen_eff_rescale_from ideal_rescale',
+    'frame_setitem_loads_then_edits': 'efftable_eqb gen_eff_setitem ideal_setitem',
+    'frame_other_methods_behave_like_a_modelled_operation': 'forallb (fun p => like_a_modelled_op (snd p)) gen_eff_others',
+    'frame_methods_load_a_parameter_frame_before_reading_its_pixels': 'match gen_unloaded_reads with nil => true | _ => false end',
+    'frame_slots_stored_outside_class_only_by_read_attach_and_exit_detach':
+        'forallb (fun e => existsb (fun a => String.eqb (fst (fst e)) (fst (fst a)) && String.eqb (snd (fst e)) (snd (fst a)) '
+        '&& String.eqb (snd e) (snd a)) (("__exit__", "_fileinfo", "none") :: ("read", "_fileinfo", "attach_fresh") :: nil))%string gen_external_stores',
+    'compute_mipmaps_loads_level_0_first': 'cm_loads_level0 gen_chaincfg',
+    'compute_mipmaps_regenerates_only_levels_without_pixels': 'match cm_guard gen_chaincfg with GDataNone | GDataNoneAndSrcNone => true | _ => false end',
+    'compute_mipmaps_scales_from_the_previous_level': 'cm_from_previous gen_chaincfg',
+    'rescale_from_loads_the_larger_frame_first': 'rs_loads_parent gen_chaincfg',
+    'save_calls_compute_mipmaps_before_the_frames': 'sv_computes_first gen_chaincfg',
+    'save_loads_each_frame_then_encodes_then_writes': 'chain_ok {| cm_loads_level0 := true; cm_guard := GDataNone; cm_from_previous := true; '
+                                                      'rs_loads_parent := true; sv_computes_first := true; sv_steps := sv_steps gen_chaincfg |}',
+    'frame_chain_configuration_ok': 'chain_ok gen_chaincfg',
+}
+
+PRE_FRAME = """Import ListNotations. Open Scope nat_scope. Open Scope list_scope.
+Inductive sym := SFile (m : nat) | SNew (k : nat) | SBlank (m : nat) | SScale (m : nat) (s : sym) | SMod (s : sym).
+Fixpoint ser (s : sym) : list nat :=
+  match s with SFile m => [0; m] | SNew k => [1; k] | SBlank m => [2; m] | SScale m s => 3 :: m :: ser s | SMod s => 4 :: ser s end.
+Definition out (l : list (option sym)) : list nat := flat_map (fun o => match o with Some s => ser s ++ [99] | None => [98; 99] end) l.
+Definition hist (n : nat) (ops : list (cop sym)) : list nat :=
+  let chain := map (fun m => {| f_data := None; f_src := Some (SFile m) |}) (seq 0 n) in
+  let chain' := run_cops sym sym SBlank (fun b => b) SScale gen_eff_load gen_eff_rescale_from gen_chaincfg
+                         gen_eff_clear gen_eff_fill gen_eff_copy_from gen_eff_setitem chain ops in
+  out (save_chain sym sym SBlank (fun b => b) (fun p => p) SScale gen_eff_load gen_eff_rescale_from gen_chaincfg chain').
+"""
+HIST_W, HIST_H = 32, 16
+
+
+def gen_history(rng: random.Random, n: int) -> list[list]:
+    ops: list[list] = []
+    k = 0
+    for _ in range(rng.choice([0, 1, 1, 2, 2, 3, 4, 6])):
+        kind = rng.choice(['load', 'clear', 'clear', 'fill', 'copy', 'set', 'rescale', 'compute', 'exit'])
+        m = rng.randrange(n)
+        if kind == 'rescale':
+            m = rng.randrange(1, n) if n > 1 else 0
+        if kind == 'exit' and rng.random() < 0.6:
+            kind = 'clear'
+        if kind in ('fill', 'copy'):
+            ops.append([kind, m, k, rng.randrange(1 << 30)])
+            k += 1
+        elif kind in ('compute', 'exit'):
+            ops.append([kind])
+        else:
+            ops.append([kind, m])
+    return ops
+
+
+def _hist_new_data(op: list, w: int, h: int) -> bytes:
+    r = random.Random(op[3])
+    if op[0] == 'fill':
+        return bytes(r.randrange(256) for _ in range(4)) * (w * h)
+    return r.randbytes(4 * w * h)
+
+
+def _set_px(b: bytes) -> bytes:
+    return bytes((1, 2, 3, 4)) + b[4:]
+
+
+def history_base(seed: int) -> tuple[bytes, int, list[bytes]]:
+    """A 32x16 RGBA8888 file whose stored levels are unrelated random pixels; -> (file, levels written, their pixels)."""
+    from srctools.vtf import VTF, ImageFormats
+    r = random.Random(seed)
+    v = VTF(HIST_W, HIST_H, fmt=ImageFormats.RGBA8888, thumb_fmt=ImageFormats.NONE)
+    for fr in v._frames.values():
+        fr.copy_from(r.randbytes(4 * fr.width * fr.height))
+    buf = io.BytesIO()
+    v.save(buf)
+    n = v.mipmap_count
+    return buf.getvalue(), n, [bytes(v.get(mipmap=m)._data) for m in range(n)]
+
+
+def run_history_impl(base: bytes, n: int, ops: list[list]) -> list[bytes]:
+    """The implementation: lazy read, operations, save, read back; pixels of levels 0..n-1 of the new file."""
+    from srctools.vtf import VTF
+    v = VTF.read(io.BytesIO(base))
+    for op in ops:
+        kind = op[0]
+        if kind == 'compute':
+            v.compute_mipmaps()
+            continue
+        if kind == 'exit':
+            v.__exit__(None, None, None)
+            continue
+        fr = v.get(mipmap=op[1])
+        if kind == 'load':
+            fr.load()
+        elif kind == 'clear':
+            fr.clear()
+        elif kind == 'fill':
+            fr.fill(*_hist_new_data(op, 1, 1))
+        elif kind == 'copy':
+            fr.copy_from(_hist_new_data(op, fr.width, fr.height))
+        elif kind == 'set':
+            fr[0, 0] = (1, 2, 3, 4)
+        elif kind == 'rescale':
+            if op[1] >= 1:
+                fr.rescale_from(v.get(mipmap=op[1] - 1))
+    out = io.BytesIO()
+    v.save(out)
+    v2 = VTF.read(io.BytesIO(out.getvalue()))
+    v2.load()
+    return [bytes(v2.get(mipmap=m)._data) for m in range(n)]
+
+
+def spec_history(levels: list[bytes], ops: list[list]) -> list[tuple[str, bytes]]:
+    """The property restated directly (independent of the Coq model and of the source): per level (why, pixels) that
+    save() must write.  A level keeps the file's pixels until something writes to it; reading never changes anything;
+    rescale_from/compute_mipmaps never replace pixels that are still only in the file; a cleared level is regenerated
+    from the level above AS WRITTEN; closing the file (__exit__) loses what was not read."""
+    n = len(levels)
+    dims = [(HIST_W >> m, HIST_H >> m) for m in range(n)]
+    blank = [bytes((0, 0, 0, 255)) * (w * h) for w, h in dims]
+    src = [True] * n
+    data: list[bytes | None] = [None] * n
+
+    def view(m):
+        return levels[m] if src[m] else (data[m] if data[m] is not None else blank[m])
+
+    def load(m):
+        data[m] = view(m)
+        src[m] = False
+
+    def rescale(m):
+        load(m - 1)
+        data[m] = ref_downscale(data[m - 1], *dims[m - 1], *dims[m], 4)
+
+    for op in ops:
+        kind = op[0]
+        if kind == 'compute':
+            load(0)
+            for m in range(1, n):
+                if data[m] is None:
+                    rescale(m)
+        elif kind == 'exit':
+            src = [False] * n
+        elif kind == 'load':
+            load(op[1])
+        elif kind == 'clear':
+            data[op[1]], src[op[1]] = None, False
+        elif kind in ('fill', 'copy'):
+            data[op[1]], src[op[1]] = _hist_new_data(op, *dims[op[1]]), False
+        elif kind == 'set':
+            load(op[1])
+            data[op[1]] = _set_px(data[op[1]])
+        elif kind == 'rescale' and op[1] >= 1:
+            rescale(op[1])
+    out: list[tuple[str, bytes]] = []
+    for m in range(n):
+        if src[m]:
+            out.append(('file', levels[m]))
+        elif data[m] is not None:
+            out.append(('pixels', data[m]))
+        elif m == 0:
+            out.append(('blank', blank[0]))
+        else:
+            out.append(('regenerated', ref_downscale(out[m - 1][1], *dims[m - 1], *dims[m], 4)))
+    return out
+
+
+HIST_KEYS = {'file': 'frame-history-level-with-file-source-not-written-from-the-file',
+             'pixels': 'frame-history-pixels-of-a-level-not-written',
+             'blank': 'frame-history-cleared-level-0-not-blank',
+             'regenerated': 'frame-history-regenerated-level-not-average-of-its-written-parent'}
+
+
+def check_history(base: bytes, n: int, levels: list[bytes], ops: list[list]) -> list[tuple[str, str]]:
+    try:
+        got = run_history_impl(base, n, ops)
+    except Exception as e:
+        return [(f'frame-history-raises-{type(e).__name__}', f'lazy read, {ops}, save: {type(e).__name__}: {e}')]
+    probs = []
+    for m, ((why, exp), g) in enumerate(zip(spec_history(levels, ops), got)):
+        if g != exp:
+            probs.append((HIST_KEYS[why], f'lazy read of a {HIST_W}x{HIST_H} file, then {ops}, then save: level {m} must be written from '
+                                          f'"{why}" but other pixels were written'))
+            break
+    return probs
+
+
+def _coq_ops(ops: list[list]) -> str:
+    out = []
+    for op in ops:
+        kind = op[0]
+        out.append({'load': lambda: f'CLoad sym {op[1]}', 'clear': lambda: f'CClear sym {op[1]}',
+                    'fill': lambda: f'CFill sym {op[1]} (SNew {op[2]})', 'copy': lambda: f'CCopy sym {op[1]} (SNew {op[2]})',
+                    'set': lambda: f'CSet sym {op[1]} SMod', 'rescale': lambda: f'CRescale sym {op[1]}',
+                    'compute': lambda: 'CCompute sym', 'exit': lambda: 'CDetachAll sym'}[kind]())
+    return '[' + '; '.join(out) + ']'
+
+
+def _interp_sym(toks: list[int], levels: list[bytes], news: dict[int, bytes], dims) -> bytes | None:
+    """one serialised symbolic value -> pixels"""
+    def go(i):
+        t = toks[i]
+        if t == 98:
+            return None, i + 1
+        if t == 0:
+            return levels[toks[i + 1]], i + 2
+        if t == 1:
+            return news[toks[i + 1]], i + 2
+        if t == 2:
+            w, h = dims[toks[i + 1]]
+            return bytes((0, 0, 0, 255)) * (w * h), i + 2
+        if t == 3:
+            m = toks[i + 1]
+            v, j = go(i + 2)
+            return ref_downscale(v, *dims[m - 1], *dims[m], 4), j
+        if t == 4:
+            v, j = go(i + 1)
+            return _set_px(v), j
+        raise ValueError(toks)
+    return go(0)[0]
+
+
+def corr_frames(ck: Ck, frame_ok: bool) -> None:
+    """Histories of Frame operations on a lazily read file: (a) the property restated in Python against the implementation
+    (concrete replays), (b) the GENERATED effect tables run by Coq on symbolic pixels against the implementation."""
+    base, n, levels = history_base(ck.seed)
+    dims = [(HIST_W >> m, HIST_H >> m) for m in range(n)]
+    fixed = [[], [['clear', n - 1]], [['clear', 1]], [['compute']], [['compute'], ['clear', n - 1]], [['rescale', 1]],
+             [['load', 1], ['clear', 2 % n]], [['set', 1]], [['exit']], [['load', 0], ['exit'], ['clear', 1]],
+             [['copy', 1, 0, 7], ['clear', 2 % n]], [['fill', 0, 0, 9], ['clear', 1]], [['clear', 0]]]
+    cases = fixed + [gen_history(ck.rng, n) for _ in range(ck.budget(140, 480))]
+    found: dict[str, tuple[list, str]] = {}
+    impl_out: list[list[bytes] | None] = []
+    for ops in cases:
+        ck.count('frame_histories')
+        ck.hist('frame_history_length', len(ops))
+        for op in ops:
+            ck.hist('frame_history_ops', op[0])
+        if ops:
+            ck.seen(('hist', json.dumps(ops)))
+        for key, what in check_history(base, n, levels, ops):
+            found.setdefault(key, (ops, what))
+        try:
+            impl_out.append(run_history_impl(base, n, ops))
+        except Exception:
+            impl_out.append(None)
+    for key, (ops, what) in found.items():
+        small = list(ops)           # shrink: drop operations while the same key is reported
+        i = 0
+        while i < len(small):
+            cand = small[:i] + small[i + 1:]
+            if any(k == key for k, _ in check_history(base, n, levels, cand)):
+                small = cand
+            else:
+                i += 1
+        what2 = next((w for k, w in check_history(base, n, levels, small) if k == key), what)
+        ck.violation(key, what2, {'history': small, 'seed': ck.seed, 'how': 'checks.c15.check_history(*history_base(seed), history)'})
+    ck.sample({'frame_history': cases[len(fixed)], 'levels': n, 'must_be_written_from': [w for w, _ in spec_history(levels, cases[len(fixed)])]})
+    if not frame_ok:
+        return
+    vals = ck.coq_eval(IMPORTS_FRAME, [f'hist {n} {_coq_ops(ops)}' for ops in cases], name='framehist', preamble=PRE_FRAME, timeout=600)
+    if vals is None:
+        ck.obligation('correspondence:frame-histories', False, 'the generated effect tables could not be run in Coq')
+        ck.tie_broken.append('correspondence frame histories: Coq evaluation failed')
+        return
+    bad = []
+    for ops, v, got in zip(cases, vals, impl_out):
+        toks = common.parse_coq_N_list(v)
+        per_level, cur = [], []
+        for t in toks:
+            if t == 99:
+                per_level.append(cur)
+                cur = []
+            else:
+                cur.append(t)
+        news = {op[2]: _hist_new_data(op, *dims[op[1]]) for op in ops if op[0] in ('fill', 'copy')}
+        model = [_interp_sym(t, levels, news, dims) for t in per_level]
+        if got is None or model != got:
+            m = next((i for i, (a, b) in enumerate(zip(model, got or [])) if a != b), None)
+            bad.append({'history': ops, 'level': m, 'model_says': per_level[m] if m is not None and m < len(per_level) else None})
+    ck.count('coq_frame_histories', len(cases))
+    ck.obligation('correspondence:frame-histories', not bad,
+                  f'{len(cases)} histories (lazy read, 0-6 operations load/clear/fill/copy_from/__setitem__/rescale_from/compute_mipmaps/__exit__, save): '
+                  f'the effect tables generated from vtf.py, run by vm_compute on symbolic pixels, predict the pixels the implementation writes for '
+                  f'every level: {len(bad)} disagreements' + (f'; first {bad[0]}' if bad else ''))
+    if bad:
+        ck.tie_broken.append('correspondence frame histories vs generated effect tables')
+        ck.extra['frame_history_disagreement'] = bad[:5]
+
+
 # ================================================================================================ main
 def run(ck: Ck) -> None:
     _patch_known()
@@ -727,10 +1030,11 @@ def run(ck: Ck) -> None:
     ]
     ok1 = ck.translate('PixelCodecs_gen', c15_pixel.translate_codecs)
     ok2 = ck.translate('VtfLayout_gen', c15_pixel.translate_layout)
+    ok3 = ck.translate('VtfFrameSM_gen', c15_frame.translate_frame)
     cod = None
     if ok1:
         cod, _ = c15_pixel.codecs_ir()
-    built = ok1 and ok2 and ck.build(['Props/C15.vo'])
+    built = ok1 and ok2 and ok3 and ck.build(['Props/C15.vo'])
     if built:
         ck.theorems('Props/C15.v')
         obs: dict[str, str] = {}
@@ -766,7 +1070,9 @@ def run(ck: Ck) -> None:
             'nearest_filters_pick_block_corners': 'terms_eqb nearest_terms block_terms',
         })
         ck.instance_obligations(IMPORTS, obs)
+        ck.instance_obligations(IMPORTS_FRAME, FRAME_OBS, name='inst_frame')
         corr_codecs(ck, cod)
+    corr_frames(ck, bool(built))
     search_codecs(ck)
     search_bounds(ck)
     search_filters(ck)
@@ -779,6 +1085,13 @@ def run(ck: Ck) -> None:
             ck.explain(f'instance:{f}_')
             ck.explain('correspondence:')
             ck.explain('translate:PixelCodecs_gen')
+        if k.startswith(('frame-history-', 'lazy-resave-')):
+            ck.explain('instance:frame_')
+            ck.explain('instance:compute_mipmaps_')
+            ck.explain('instance:rescale_from_')
+            ck.explain('instance:save_')
+            ck.explain('correspondence:frame-histories')
+            ck.explain('translate:VtfFrameSM_gen')
         if k.startswith('frame-getitem'):
             ck.explain('instance:getitem_')
         if k.startswith('frame-setitem'):
@@ -810,6 +1123,11 @@ def replay(data: dict) -> int:
         ld = impl_load(f, st)
         print(f'{f.name}: pixel {p} stored {st[0]} loaded {ld[0]} stored again {impl_save(f, ld)[0]}; documented quantisation '
               f'{tuple(ref_quantise(f.name, bytes(p)))}')
+        return 0
+    if 'history' in r:
+        base, n, levels = history_base(r['seed'])
+        for k, w in check_history(base, n, levels, r['history']):
+            print(k, '::', w)
         return 0
     if 'bounds' in r:
         from srctools.vtf import VTF
